@@ -36,9 +36,9 @@ pub fn spec_dec_block(x: &Xtea, mut block: InOut<'_, '_, Block<Xtea>>) {
 }
 
 // ---------------------------------------------------------------- C09 conformance, C20
-// @ob name=c_xtea_enc_state props=C09,C20 fn=xtea::Xtea::encrypt_block solver=z3 timeout=600
+// (cadical: 110-170 s; z3 did not finish in 20 min on this formulation)
+// @ob name=c_xtea_enc_state props=C09,C20 fn=xtea::Xtea::encrypt_block timeout=900
 #[kani::proof]
-#[kani::solver(z3)]
 #[kani::unwind(34)]
 fn c_xtea_enc_state() {
     let x = any_xtea();
@@ -49,9 +49,8 @@ fn c_xtea_enc_state() {
     assert!(words(&blk.0)[0] == r[0] && words(&blk.0)[1] == r[1]);
 }
 
-// @ob name=c_xtea_dec_state props=C09,C20 fn=xtea::Xtea::decrypt_block solver=z3 timeout=600
+// @ob name=c_xtea_dec_state props=C09,C20 fn=xtea::Xtea::decrypt_block timeout=900
 #[kani::proof]
-#[kani::solver(z3)]
 #[kani::unwind(34)]
 fn c_xtea_dec_state() {
     let x = any_xtea();
@@ -73,13 +72,44 @@ fn c_xtea_new() {
     assert!(eq4(&Xtea::new_from_slice(&k[..]).unwrap().k, &w));
 }
 
+/// uninterpreted pair (direction, words, key words) -> words standing for bcref::xtea::{encrypt,decrypt}_words
+pub mod ufw {
+    pub const MAXC: usize = 6;
+    pub static mut D: [bool; MAXC] = [false; MAXC];
+    pub static mut V: [[u32; 2]; MAXC] = [[0; 2]; MAXC];
+    pub static mut K: [[u32; 4]; MAXC] = [[0; 4]; MAXC];
+    pub static mut R: [[u32; 2]; MAXC] = [[0; 2]; MAXC];
+    pub static mut N: usize = 0;
+    #[allow(static_mut_refs)]
+    fn block(dec: bool, v: [u32; 2], k: &[u32; 4]) -> [u32; 2] {
+        unsafe {
+            let mut r: [u32; 2] = kani::any();
+            let mut found = false;
+            let mut c = 0;
+            while c < N {
+                let eq = D[c] == dec && V[c][0] == v[0] && V[c][1] == v[1] && super::eq4(&K[c], k);
+                if !found && eq { r = R[c]; found = true; }
+                c += 1;
+            }
+            assert!(N < MAXC);
+            D[N] = dec; V[N] = v; K[N] = *k; R[N] = r; N += 1;
+            r
+        }
+    }
+    pub fn enc(v: [u32; 2], k: &[u32; 4]) -> [u32; 2] { block(false, v, k) }
+    pub fn dec(v: [u32; 2], k: &[u32; 4]) -> [u32; 2] { block(true, v, k) }
+}
+
 // Public API on bytes: new + encrypt_block / decrypt_block == 32-cycle XTEA over little-endian words.
-// The block functions are replaced by their contracts (c_xtea_enc_state / c_xtea_dec_state).
+// The block functions are replaced by their contracts (c_xtea_enc_state / c_xtea_dec_state); what remains is the
+// byte <-> word plumbing of key and block, so the word-level reference routines are uninterpreted here.
 // @ob name=c_xtea_bytes_api props=C09,C20 fn=xtea::Xtea::new,xtea::Xtea::encrypt_block,xtea::Xtea::decrypt_block
 //     uses=c_xtea_enc_state,c_xtea_dec_state timeout=300
 #[kani::proof]
 #[kani::stub(<Xtea as BlockCipherEncBackend>::encrypt_block, spec_enc_block)]
 #[kani::stub(<Xtea as BlockCipherDecBackend>::decrypt_block, spec_dec_block)]
+#[kani::stub(bcref::xtea::encrypt_words, ufw::enc)]
+#[kani::stub(bcref::xtea::decrypt_words, ufw::dec)]
 #[kani::unwind(34)]
 fn c_xtea_bytes_api() {
     let k: [u8; 16] = kani::any();
@@ -94,9 +124,8 @@ fn c_xtea_bytes_api() {
 }
 
 // The same with nothing replaced (real key loading and real 32 cycles against the reference), both directions.
-// @ob name=c_xtea_mono_api props=C09 fn=xtea::Xtea::new,xtea::Xtea::encrypt_block,xtea::Xtea::decrypt_block solver=z3 timeout=900
+// @ob name=c_xtea_mono_api props=C09 tier=thorough fn=xtea::Xtea::new,xtea::Xtea::encrypt_block,xtea::Xtea::decrypt_block timeout=1800
 #[kani::proof]
-#[kani::solver(z3)]
 #[kani::unwind(34)]
 fn c_xtea_mono_api() {
     let k: [u8; 16] = kani::any();
@@ -132,33 +161,48 @@ fn l_xtea_cycle_inverse() {
 /// Uninterpreted inverse pair standing for (cycle, uncycle) of the reference: for every key and sum,
 /// cyc(., ., sum, k) is a bijection on (y, z) whose inverse is uncyc(., ., sum + DELTA, k); the sum component is
 /// the concrete one.  Licensed by l_xtea_cycle_inverse.
+/// The relation table is organised in 32 slots by the (concrete) value of sum = n * DELTA, so a call only looks
+/// at the rows of its own cycle number (rows of different sums are unrelated: each sum has its own bijection).
 pub mod ufc {
-    pub const MAXC: usize = 130;
-    // relation rows: (y, z, sum_before, key) <-> (y', z')
-    pub static mut A: [(u32, u32, u32); MAXC] = [(0, 0, 0); MAXC];
-    pub static mut B: [(u32, u32); MAXC] = [(0, 0); MAXC];
-    pub static mut K: [[u32; 4]; MAXC] = [[0; 4]; MAXC];
-    pub static mut N: usize = 0;
+    pub const SLOTS: usize = 32;
+    pub const PER: usize = 4;
+    // relation rows of slot n: (y, z, key) <-> (y', z')
+    pub static mut A: [[(u32, u32); PER]; SLOTS] = [[(0, 0); PER]; SLOTS];
+    pub static mut B: [[(u32, u32); PER]; SLOTS] = [[(0, 0); PER]; SLOTS];
+    pub static mut K: [[[u32; 4]; PER]; SLOTS] = [[[0; 4]; PER]; SLOTS];
+    pub static mut CNT: [usize; SLOTS] = [0; SLOTS];
     fn keq(a: &[u32; 4], b: &[u32; 4]) -> bool { a[0] == b[0] && a[1] == b[1] && a[2] == b[2] && a[3] == b[3] }
+    /// cycle number of a sum-before-the-cycle value (the only values the 32-cycle routines produce)
+    fn slot(sum: u32) -> usize {
+        let mut n = 0;
+        let mut hit = SLOTS;
+        while n < SLOTS {
+            if sum == bcref::xtea::DELTA.wrapping_mul(n as u32) { hit = n; }
+            n += 1;
+        }
+        assert!(hit < SLOTS);
+        hit
+    }
     #[allow(static_mut_refs)]
     pub fn cyc(y: u32, z: u32, sum: u32, k: &[u32; 4]) -> (u32, u32, u32) {
         unsafe {
+            let n = slot(sum);
             let mut r: (u32, u32) = (kani::any(), kani::any());
             let mut found = false;
             let mut i = 0;
-            while i < N {
-                if !found && keq(&K[i], k) && A[i].2 == sum && A[i].0 == y && A[i].1 == z { r = B[i]; found = true; }
+            while i < CNT[n] {
+                if !found && keq(&K[n][i], k) && A[n][i].0 == y && A[n][i].1 == z { r = B[n][i]; found = true; }
                 i += 1;
             }
             if !found {
                 let mut i = 0;
-                while i < N {
-                    if keq(&K[i], k) && A[i].2 == sum { kani::assume(B[i].0 != r.0 || B[i].1 != r.1); }
+                while i < CNT[n] {
+                    if keq(&K[n][i], k) { kani::assume(B[n][i].0 != r.0 || B[n][i].1 != r.1); }
                     i += 1;
                 }
             }
-            assert!(N < MAXC);
-            A[N] = (y, z, sum); B[N] = r; K[N] = *k; N += 1;
+            assert!(CNT[n] < PER);
+            A[n][CNT[n]] = (y, z); B[n][CNT[n]] = r; K[n][CNT[n]] = *k; CNT[n] += 1;
             (r.0, r.1, sum.wrapping_add(bcref::xtea::DELTA))
         }
     }
@@ -166,22 +210,23 @@ pub mod ufc {
     pub fn uncyc(y: u32, z: u32, sum: u32, k: &[u32; 4]) -> (u32, u32, u32) {
         unsafe {
             let s0 = sum.wrapping_sub(bcref::xtea::DELTA);
+            let n = slot(s0);
             let mut r: (u32, u32) = (kani::any(), kani::any());
             let mut found = false;
             let mut i = 0;
-            while i < N {
-                if !found && keq(&K[i], k) && A[i].2 == s0 && B[i].0 == y && B[i].1 == z { r = (A[i].0, A[i].1); found = true; }
+            while i < CNT[n] {
+                if !found && keq(&K[n][i], k) && B[n][i].0 == y && B[n][i].1 == z { r = A[n][i]; found = true; }
                 i += 1;
             }
             if !found {
                 let mut i = 0;
-                while i < N {
-                    if keq(&K[i], k) && A[i].2 == s0 { kani::assume(A[i].0 != r.0 || A[i].1 != r.1); }
+                while i < CNT[n] {
+                    if keq(&K[n][i], k) { kani::assume(A[n][i].0 != r.0 || A[n][i].1 != r.1); }
                     i += 1;
                 }
             }
-            assert!(N < MAXC);
-            A[N] = (r.0, r.1, s0); B[N] = (y, z); K[N] = *k; N += 1;
+            assert!(CNT[n] < PER);
+            A[n][CNT[n]] = r; B[n][CNT[n]] = (y, z); K[n][CNT[n]] = *k; CNT[n] += 1;
             (r.0, r.1, s0)
         }
     }
@@ -196,7 +241,7 @@ pub mod ufc {
 #[kani::stub(<Xtea as BlockCipherDecBackend>::decrypt_block, spec_dec_block)]
 #[kani::stub(bcref::xtea::cycle, ufc::cyc)]
 #[kani::stub(bcref::xtea::uncycle, ufc::uncyc)]
-#[kani::unwind(131)]
+#[kani::unwind(34)]
 fn l_xtea_roundtrip() {
     let x = any_xtea();
     let b: [u8; 8] = kani::any();
